@@ -122,8 +122,6 @@ def render_tu(tu, keep=None, keep_env=None):
             emit(render_decl(d), ("decl", d["id"]))
     for h in tu["hosts"]:
         mine = [d for d in decls if d["site"] == h["id"]]
-        if not mine and keep is not None:
-            continue
         emit(h["open"], ("host", h["id"]))
         for n in h.get("nested", []):
             emit("  " + n, ("host", h["id"]))
@@ -376,6 +374,11 @@ def subterms(t):
     return out
 
 
+def _context_dependent(d):
+    sig = decl_signature(d)
+    return any(x in sig for x in ("/unq-", "/relqual", "/via-derived", "tmpl-member"))
+
+
 def decl_candidates(d):
     """simpler declarations (same site, same kind); each keeps the fields needed by render_decl."""
     out = []
@@ -400,8 +403,8 @@ def decl_candidates(d):
             add(dict(base, virtual=False))
         if not d.get("pnames", True):
             add(dict(base, pnames=True))
-        if d["kind"] != "func":
-            # the same declaration as a free function (only survives when its spellings mean the same there)
+        if d["kind"] != "func" and not _context_dependent(d):
+            # the same declaration as a free function (spellings that depend on the class scope stay where they are)
             add(dict(base, kind="func", site="global", cvq="", virtual=False, name="f_0"))
         for s in subterms(d["ret"]):
             add(dict(base, ret=s))
@@ -413,7 +416,7 @@ def decl_candidates(d):
             for c in type_candidates(p):
                 add(dict(base, params=ps[:i] + [c] + ps[i + 1:]))
     else:
-        if d["kind"] == "member":
+        if d["kind"] == "member" and not _context_dependent(d):
             add(dict(d, kind="var", site="global", name="v_0"))
         if d["kind"] == "alias":
             add(dict(d, kind="typedef", name="T_0"))
@@ -619,13 +622,19 @@ class Universe:
         if r.random() < 0.35:
             self.line("virtual-base-no-access", "struct PV0 { virtual void g() = 0; }; struct VB : virtual PV0 { void g(); };")
         # placed after the host classes: visible to the global declarations only
+        self.late_ops = []
         if r.random() < 0.5:
-            g.usings["Q"] = Q
+            self.late_ops.append(lambda: g.usings.__setitem__("Q", Q))
             self.line("using-declaration", "using na::nb::Q;", late=True)
         if r.random() < 0.4:
-            g.dirs.append(nc)
+            self.late_ops.append(lambda: g.dirs.append(nc))
             self.line("using-directive", "using namespace nc;", late=True)
         return self
+
+    def apply_late(self):
+        for op in self.late_ops:
+            op()
+        self.late_ops = []
 
     # -- spelling of an atom as seen from `site`
     def spell(self, atom, site):
@@ -839,13 +848,13 @@ class DeclGen:
         self.host_scopes[h["id"]] = sc
         return h
 
-    def new_decl(self, site_id):
+    def new_decl(self, site_id, early=False):
         r = self.rng
         self.nid += 1
         k = self.nid
         site = self.u.glob if site_id == "global" else self.host_scopes[site_id]
         if site_id == "global":
-            kind = r.choice(["func"] * 6 + ["var"] * 2 + ["typedef", "alias"])
+            kind = r.choice(["typedef", "alias"]) if early else r.choice(["func"] * 3 + ["var"])
         else:
             kind = r.choice(["method"] * 5 + ["smethod", "member", "member"])
         if kind in ("func", "method", "smethod"):
@@ -869,11 +878,19 @@ class DeclGen:
         for k in range(n_hosts):
             self.new_host(k)
         sites = ["global"] * 4 + [h["id"] for h in self.hosts] * 2
-        # typedefs first so that later declarations can use them
-        for _ in range(max(2, n_decls // 12)):
-            self.nid += 0
-        for _ in range(n_decls):
-            self.new_decl(self.rng.choice(sites))
+        picks = [self.rng.choice(sites) for _ in range(n_decls)]
+        n_glob = sum(1 for p in picks if p == "global")
+        n_early = max(1, n_glob // 5)
+        # typedefs / aliases are rendered before the host classes, the members next; the using-declarations and
+        # -directives of the global scope come after the host classes and are visible to the rest only
+        for _ in range(n_early):
+            self.new_decl("global", early=True)
+        for p in picks:
+            if p != "global":
+                self.new_decl(p)
+        self.u.apply_late()
+        for _ in range(n_glob - n_early):
+            self.new_decl("global")
         return {"env": self.u.env, "late_env": self.u.late_env, "hosts": self.hosts, "decls": self.decls}
 
 
